@@ -73,8 +73,9 @@ def cases(rng, tier, shard, nshards, phase):
             yield {"op": "bt", "supports": sup}
         else:
             a, b = rng.randint(1, 4), rng.randint(1, 4)
-            c = rng.choice([0.5, 0.7, 0.3, 0.9, 0.05, 0.999, 0.001, rng.uniform(0.01, 0.99)])
-            yield {"op": "slate", "a": a, "b": b, "cohesion": c, "zero_a": rng.random() < 0.3}
+            c = rng.choice([0.5, 0.7, 0.3, 0.9, 0.05, 0.999, 0.001, 1.0, 0.0, rng.uniform(0.01, 0.99)])
+            yield {"op": "slate", "a": a, "b": b, "cohesion": c, "zero_a": rng.random() < 0.3,
+                   "bloc": rng.choice(["A", "B"])}
 
 
 def close(x, exact):
@@ -187,7 +188,10 @@ def run_case(vk, case):
     if out[0] != "ok":
         fail("slate-bt-generator-raises", out[2])
         return {"req": None, "expect": None, "monitors": monitors, "tags": tags}
-    pdf = {tuple(x == "A" for x in k): v for k, v in out[1].ballot_type_pdf["A"].items()}
+    bloc = case.get("bloc", "A")
+    pdf = {tuple(x == bloc for x in k): v for k, v in out[1].ballot_type_pdf[bloc].items()}
+    if bloc == "B":
+        a, b = b, a      # own slate size first
     cf = Fraction(c)
     w = {}
     for t in set(itertools.permutations([True] * a + [False] * b)):
